@@ -185,7 +185,7 @@ pub fn generate(rng: &mut Rng, thorough: bool, out: &mut Out) {
     // the empty history: `into_scad` panics (stated hypothesis of the property, not a violation)
     let (q, r) = run_scene(0.1, 0.05, 6, vec![]);
     out.case(q, r);
-    let n = if thorough { 3000 } else { 300 };
+    let n = if thorough { 3000 } else { 800 };
     for _ in 0..n {
         let k = match rng.below(5) {
             0 => 1,
